@@ -100,6 +100,10 @@ var userDirectives = []string{
 	"// gomacro:SQL ADD UNIQUE(Name)\n// gomacro:SQL ADD CHECK(Role = #[Role.Admin] OR Role = #[Role.Member])",
 	"// gomacro:SQL ADD UNIQUE(Role)\n// gomacro:QUERY CleanUsers DELETE FROM User WHERE Role = $r$",
 	"// gomacro:SQL ADD UNIQUE(Name)\n// gomacro:SQL ADD UNIQUE(Mood)",
+	// a placeholder used twice with another one in between
+	"// gomacro:QUERY RetouchUser UPDATE User SET Name = $v$, Role = $role$ WHERE Name = $v$",
+	// the select key directive is matched case-insensitively
+	"// gomacro:SQL _select key(Name)",
 }
 
 var linkDirectives = []string{
@@ -114,6 +118,7 @@ var linkDirectives = []string{
 	"// gomacro:QUERY MoveMembers UPDATE Membership SET IdTeam = $to$ WHERE IdTeam = $from$",
 	// two REFERENCES clauses in one statement, the second one naming a table declared elsewhere
 	"// gomacro:SQL ADD FOREIGN KEY (IdTeam) REFERENCES Team, ADD FOREIGN KEY (IdUser) REFERENCES PersonArchive",
+	"// gomacro:SQL _Select Key(IdTeam, IdUser)",
 }
 
 // Tables is the F-tables family.
@@ -168,7 +173,7 @@ func TablesWith(c explore.Chooser, defaultCol string) *prog.Program {
 	case "unexported-duplicate":
 		b.WriteString("type Role uint8\n\nconst (\n\tAdmin Role = iota // administrator\n\tMember\n\tSenior\n)\n\nconst guest = Member\n\n")
 	}
-	b.WriteString("type Mood string\n\nconst (\n\tHappy Mood = \"happy\"\n\tSad   Mood = \"sa d\"\n\tNamed Mood = \"User\" // a value spelled like a table struct\n)\n\n")
+	b.WriteString("type Mood string\n\nconst (\n\tHappy Mood = \"happy\"\n\tSad   Mood = \"sa d\"\n\tNamed Mood = \"User\" // a value spelled like a table struct\n\tWordy Mood = \"a mood whose description is so long that it does not fit in seventy-two characters at all\"\n)\n\n")
 	b.WriteString(col.declB)
 	b.WriteString("\n")
 	ext.WriteString("type Pos struct {\n\tLat, Lng int32\n}\n\ntype Level int\n\nconst (\n\tLow Level = iota + 1\n\tHigh\n)\n\ntype IdRemote int64\n")
